@@ -826,6 +826,9 @@ class Exec:
             raise Undecided("symbolic index into concrete list")
         from . import objects
         if isinstance(v, objects.SLRef):
+            if isinstance(sl, ast.Slice) and st.heap[v.sid].cls == objects.STR_LIST and sl.step is None:
+                lo, hi = self.slice_bounds(sl, st.heap[v.sid].length, st)
+                return objects.new_symlist(self, st, objects.STR_LIST, length=z3.simplify(z3.If(hi > lo, hi - lo, z3.IntVal(0))), name="strslice")
             if isinstance(sl, ast.Slice):
                 raise Undecided("slice of symbolic list")
             d = st.heap[v.sid]
@@ -848,6 +851,8 @@ class Exec:
             raise Undecided("dict lookup with non-constant key")
         if isinstance(v, ARef):
             return self.arr_subscript(st, v, sl, e)
+        if isinstance(v, StrV) and isinstance(sl, ast.Slice):
+            return StrV("<slice of a string>")       # string content is opaque
         if isinstance(v, MaskedV):
             d = self.arr(st, v.arr)
             if d.rank == 2 and isinstance(sl, ast.Tuple) and len(sl.elts) == 2 and isinstance(sl.elts[0], ast.Slice) and not isinstance(sl.elts[1], ast.Slice):
@@ -1196,7 +1201,7 @@ class Exec:
             if tgt.id in sl and sl[tgt.id] == "str" and isinstance(val, LRef) and all(isinstance(x, StrV) for x in st.heap[val.sid].items):
                 # a list of strings that grows by a symbolic number of entries: only its length is tracked (strings are opaque)
                 from . import objects
-                val = objects.new_symlist(self, st, None, length=z3.IntVal(len(st.heap[val.sid].items)), name=tgt.id, elem_sort=I)
+                val = objects.new_symlist(self, st, objects.STR_LIST, length=z3.IntVal(len(st.heap[val.sid].items)), name=tgt.id)
             elif tgt.id in sl and isinstance(val, LRef) and not st.heap[val.sid].items:
                 from . import objects
                 cls = sl[tgt.id]
